@@ -33,6 +33,108 @@ func runC17(p *core.Program, r *core.Report) {
 	r.Floor("R5", 1)
 	a10Report(p, r, "R5", "devpkg/deepcopygen", "devpkg/deepcopygen/helper")
 	processedGuard(p, r, "R2", "devpkg/deepcopygen", "(*deepcopyGen).generateType")
+	c17R7(p, r)
+	generatorOrderSources(p, r, "R6", "devpkg/deepcopygen", "devpkg/deepcopygen/helper")
+}
+
+// generatorOrderSources: the sample generators must not let map-iteration or
+// scheduling order reach what they render (same output on the first and on
+// later runs): every order source in the given packages has to match one of
+// the order-insensitive idioms of C04.
+func generatorOrderSources(p *core.Program, r *core.Report, rule string, rels ...string) {
+	n := 0
+	for _, f := range p.Funcs() {
+		rel := core.RelPkg(f.Pkg.PkgPath)
+		in := false
+		for _, w := range rels {
+			if rel == w {
+				in = true
+			}
+		}
+		if !in {
+			continue
+		}
+		for _, os := range orderSources(f) {
+			n++
+			sub := core.NewReport(r.Prog, "C04")
+			c04Classify(p, sub, f, os)
+			for _, o := range sub.Obls {
+				if o.Status == core.Violated || o.Status == core.Undecided {
+					r.Bad(rule, f, "order source in a generator: "+o.Construct, os.Pos, "what the generator renders (or which dependency it renders first) follows Go's randomised map iteration: the generated file differs between runs - "+o.How)
+				} else {
+					r.OK(rule, f, "order source in a generator: "+o.Construct, os.Pos, o.How)
+				}
+			}
+		}
+	}
+	if n == 0 {
+		r.OK(rule, nil, "no map range / select / go / time / rand in "+strings.Join(rels, ", "), token.NoPos, "order-source scan")
+	}
+}
+
+// c17R7: a field whose type is a named type of the same package is always
+// copied through its (generated) DeepCopy/DeepCopyInto, never assigned.
+func c17R7(p *core.Program, r *core.Report) {
+	const rule = "R7"
+	r.Floor(rule, 1)
+	f := p.FuncByName("devpkg/deepcopygen/helper", "(*StructFieldsCopy).createFieldSnippet")
+	if f == nil {
+		r.Anchor(rule, "devpkg/deepcopygen/helper.(*StructFieldsCopy).createFieldSnippet")
+		return
+	}
+	info := f.Info()
+	g := graph(f)
+	n := 0
+	for _, s := range templateSites(p) {
+		if s.F != f || !s.IsConst {
+			continue
+		}
+		flat := strings.ReplaceAll(strings.ReplaceAll(s.Format, " ", ""), "\n", "")
+		flat = strings.TrimSpace(flat)
+		if flat != "out.@fieldName=in.@fieldName" {
+			continue
+		}
+		n++
+		same := false
+		for _, fct := range g.FactsAt(g.PointOf(s.Call)) {
+			if fld := core.FieldOf(info, fct.Cond); fld != nil && fld.Name() == "InSamePkg" && fct.Val {
+				same = true
+			}
+		}
+		r.Check(!same, rule, f, "the shallow `out.F = in.F` template is not chosen for same-package named types", s.Call.Pos(), "not dominated by InSamePkg == true",
+			"a field of a same-package named type can be assigned instead of deep-copied (a shortcut under InSamePkg): a struct that only looks plain but nests a struct with slice/map fields shares those containers with the original")
+	}
+	if n == 0 {
+		r.Anchor(rule, "shallow assignment templates in createFieldSnippet")
+	}
+	// under InSamePkg both copy methods are forced on (so the chain always picks a DeepCopy form)
+	forced := 0
+	ast.Inspect(f.Body, func(nd ast.Node) bool {
+		as, ok := nd.(*ast.AssignStmt)
+		if !ok || len(as.Lhs) != 1 {
+			return true
+		}
+		fld := core.FieldOf(info, as.Lhs[0])
+		if fld == nil || (fld.Name() != "HasDeepCopyInto" && fld.Name() != "HasDeepCopy") {
+			return true
+		}
+		under := false
+		for _, fct := range g.FactsAt(g.PointOf(as)) {
+			if fl := core.FieldOf(info, fct.Cond); fl != nil && fl.Name() == "InSamePkg" && fct.Val {
+				under = true
+			}
+		}
+		if !under {
+			return true
+		}
+		if tv := info.Types[as.Rhs[0]]; tv.Value == nil || tv.Value.String() != "true" {
+			r.Bad(rule, f, "under InSamePkg `"+core.ExprStr(as)+"` switches a copy method off", as.Pos(), "for a same-package named type the DeepCopy/DeepCopyInto call is switched off again: the field is assigned shallowly, and a struct that nests another struct with slice/map fields shares those containers with the original")
+			return true
+		}
+		forced++
+		return true
+	})
+	r.Check(forced >= 2, rule, f, "same-package named types are always copied through DeepCopy/DeepCopyInto", f.Node().Pos(), "HasDeepCopy and HasDeepCopyInto are forced under InSamePkg", "for same-package dependencies the copy methods are not forced on: the field falls back to a shallow assignment")
 }
 
 // c17R1: nil guard in the skeletons of DeepCopy / DeepCopyAs.
